@@ -373,6 +373,15 @@ theorem call_lstep (st st' : NState) (rnd : Option Nat) (op : NodeOp) (res : OpR
     simp only [applyOp] at h
     cases h
     exact LStep.of_fields hinv' rfl rfl rfl rfl
+  | onEntriesFetched to term aggr =>
+    rcases CV.onEntriesFetched_ok h with h | ⟨-, -, -, raft, hx, h⟩
+    · cases h; exact LStep.of_fields hinv' rfl rfl rfl rfl
+    · cases h
+      rcases hx with hx | hx
+      · have hvf := Res.Post.of_eq (CV.sendAppendAggressively_vf _ _) hx
+        exact LStep.of_k0 hinv' (sendAppendAggressively_k hx K.rfl hinv' hnb') hvf.term hvf.state
+      · have hvf := Res.Post.of_eq (CV.sendAppend_vf _ _) hx
+        exact LStep.of_k0 hinv' (sendAppend_k hx K.rfl hinv' hnb') hvf.term hvf.state
 
 end Raft
 end RaftModel
